@@ -274,6 +274,29 @@ def memo_coherence_obligations():
         obs.append(_mk('vform:VForm:memoized-hash-coherent[%02d:%s]' % (k, spec['expr'][:30]), ok,
                        'after hash() either the form rejects add() or hash() reflects the change', detail, src='def add'))
         obs[-1].backend = 'executed on the real class'
+    # named variables that no expression refers to WHEN THE HASH IS TAKEN still reach the generated code if they carry one of the lazily
+    # resolved predefined names (dx becomes W * ... only in finalize(), and `W`, `Jac`, `JacInv`, ... pick up a user variable of that name):
+    # they must be part of the hash
+    def form(override):
+        vf = m.VForm(2)
+        u, v = vf.basisfuns()
+        if override is not None:
+            name, c = override
+            if name == 'W':
+                vf.let('W', c * vf.GaussWeight * abs(m.det(vf.Jac)))
+            else:
+                vf.let(name, vf.Geo[0] * c)
+        vf.add(u * v * m.dx)
+        return vf
+    try:
+        hs = {k: form(o).hash() for k, o in (('plain', None), ('W*3', ('W', 3.0)), ('W*0.5', ('W', 0.5)), ('unused*2', ('unused', 2.0)), ('unused*5', ('unused', 5.0)))}
+        same = [(a, b) for a in hs for b in hs if a < b and hs[a] == hs[b]]
+        ok, detail = not same, 'equal hashes for the forms %r (u*v*dx with / without a user-defined variable named W resp. unused)' % (same,)
+    except Exception as e:
+        ok, detail = False, 'raised %s: %s' % (type(e).__name__, e)
+    obs.append(_mk('vform:VForm.hash:covers[named variables without a reference at hash time]', ok,
+                   'forms that differ only in the definition of a named variable no expression refers to yet (e.g. a user-defined W, picked up by dx in finalize()) have different hashes', detail, src='def hash(self)'))
+    obs[-1].backend = 'executed on the real class'
     return obs, None
 
 
